@@ -92,10 +92,18 @@ def enum_action(tier):
         if thorough and ci in (0, 2):
             for atoms in itertools.product(alpha, repeat=4):
                 yield ('action', cfg, atoms, 0)
-    if thorough:
-        structural = [i for i, (n, _) in enumerate(ACTION_ATOMS) if n in ('next', 'glyph_x', 'subs+1', 'copy-1', 'copy+1', 'insert', 'delete', 'assoc-1+1', 'att-1', 'att+1', 'att0')]
-        for atoms in itertools.product(structural, repeat=5):
-            yield ('action', cfgs[0], atoms, 0)
+    # structural subset (slot list / attachment surgery only): one atom more than the full alphabet gets (quick 4, thorough 5)
+    structural = [i for i, (n, _) in enumerate(ACTION_ATOMS) if n in ('next', 'glyph_x', 'subs+1', 'copy-1', 'copy+1', 'insert', 'delete', 'assoc-1+1', 'att-1', 'att+1', 'att0')]
+    for atoms in itertools.product(structural, repeat=5 if thorough else 4):
+        if not thorough and len(set(atoms)) < 3: continue
+        yield ('action', cfgs[0], atoms, 0)
+    if not thorough:
+        # quick: the 5-atom programs that use one atom of each kind (advance, glyph change, delete, copy, attach), in every order
+        kinds = [('next',), ('glyph_x', 'subs+1'), ('delete',), ('copy-1', 'copy+1'), ('att-1', 'att+1', 'att0')]
+        idx = {n: i for i, (n, _) in enumerate(ACTION_ATOMS)}
+        for choice in itertools.product(*kinds):
+            for perm in itertools.permutations(choice):
+                yield ('action', cfgs[0], tuple(idx[n] for n in perm), 0)
 
 
 def enum_constraint(tier):
